@@ -12,6 +12,14 @@ CHECKS = {
          "Seeded search: thousands of generated generic-driver sessions, each under its own segmentation/latency plan and its own controller-decided interleaving of reader and operation goroutines; results compared with expectations built by construction and the device's receive log. Sampled, not exhaustive.",
          "Trusts the CLI device model, the SimTransport and the fake clock; generator restrictions listed in DESIGN.md 5/C01 (H).",
          "deterministic simulation: synctest bubble + seeded goroutine controller + SimTransport/CLI device model, oracle by construction", "5/C01"),
+ "C05": ("fault_enumeration",
+         "For each sampled session the stall point is enumerated over every byte offset of the device stream (thorough) or a stride of it (quick); each stalled run is checked on the fake clock for error class, timeout bounds (lower and upper), no partial success, and recovery of the next exchange once the device catches up. Sessions themselves are sampled.",
+         "Trusts the device/transport models and the fake clock; the per-operation timeout is demanded of the steps that accept one (implicit privilege steps are entitled to the connection-wide value); generator restrictions in DESIGN.md 5/C05.",
+         "deterministic simulation with stall-fault enumeration (device silent after byte k, for every k), exact fake-clock timing oracle", "5/C05"),
+ "C06": ("fault_enumeration",
+         "For each sampled session the loss point is enumerated over every byte offset (end-of-stream and persistent read error) and every write index (write error); each run is checked for prompt error return of the in-flight call, errors from all later calls, no truncated success, and process survival (a panic in any goroutine kills the worker and is attributed to the run).",
+         "Trusts the device/transport models; 'promptly' is 4 read delays + latency + one poll quantum; one known finding (stale get-prompt inside the retry window) is listed in known-findings.json.",
+         "deterministic simulation with loss-fault enumeration (eof/readerr after byte k for every k, write error at every write), crash attribution per run", "5/C06"),
 }
 
 NOT_YET = {}  # id -> reason (filled while the framework is being built)
